@@ -159,6 +159,27 @@ def primitives(ctx, cfg, fs, rule):
                     base = provenance(b, r.call.args[0], r.call.bb, 'term', through=DEFAULT_THROUGH + [r'Iterator>?::(filter|copied|cloned)$', r'slice::<impl \[T\]>::iter$', r'IntoIterator>?::into_iter$'])
                     on_ledger = bool(base) and all('item_state' in q.path for q in base)
                     ok = uses_present and 'Filter' in chain and on_ledger
+    if not ok:
+        # the same count written as a loop: remaining <- 0, +1 for every element of item_state[scope] that is present()
+        LOOP = DEFAULT_THROUGH + [r'Iterator>?::(next|copied|cloned|by_ref)$', r'slice::<impl \[T\]>::iter$', r'IntoIterator>?::into_iter$']
+        for i, k, st in b.stmts():
+            if st['k'] == 'assign' and 'remaining' in place_fields(st['lhs']) and st['rv']['k'] == 'use':
+                rs = provenance(b, st['rv']['op'], i, k, through=None)
+                zero = any(r.kind == 'const' and r.what == 0 for r in rs)
+                incs = [r for r in rs if r.kind == 'bin' and r.extra['op'].startswith('Add') and (op_const(r.extra['b']) or {}).get('v') == 1]
+                other = [r for r in rs if not (r.kind == 'const' and r.what == 0) and r not in incs]
+                good = zero and bool(incs) and not other
+                for r in incs:
+                    guarded = False
+                    for (a_, s_) in b.transitive_control_deps(r.site[0]):
+                        sw = Switch(b, a_)
+                        if sw.kind == 'bool' and s_ == sw.target(True) and sw.roots and all(q.kind == 'call' and q.call.is_(r'^args::ItemState::present$') for q in sw.roots):
+                            for q in sw.roots:
+                                base = provenance(b, q.call.args[0], q.call.bb, 'term', through=LOOP)
+                                if base and all('item_state' in z.path for z in base):
+                                    guarded = True
+                    good &= guarded
+                ok = ok or good
     ctx.ob(rule, 'set_scope:remaining-recount', ok, 'set_scope recomputes remaining as the number of present() items of the new scope: %s' % ok, where=b.where(), cfg=cfg)
     assigned = any(st['k'] == 'assign' and place_fields(st['lhs']) == ['scope'] and all(r.kind == 'param' and r.what == 'scope' for r in provenance(b, st['rv']['op'], i, k)) for i, k, st in b.stmts() if st['rv']['k'] == 'use')
     ctx.ob(rule, 'set_scope:assigns-parameter', assigned, 'set_scope stores its parameter as the new scope: %s' % assigned, where=b.where(), cfg=cfg)
@@ -219,16 +240,48 @@ def iter_calls(body):
             out.append((m.group(1), c))
     return out
 
+_HELPERS = {}
+def lookup_helpers(fs):
+    """crate functions (other than the listed consumers) that search State::items_iter() and hand back the index
+    they found: path -> list of (iterator method, call).  A consumer that delegates its search to one of these is
+    analysed as if the search were written inline."""
+    key = id(fs)
+    if key in _HELPERS:
+        return _HELPERS[key]
+    out = {}
+    listed = {p_ for (p_, _) in CONSUMERS.values()}
+    for h in fs.bodies.values():
+        if h.kind == 'closure' or h.path in listed or not re.search(r'Option<usize>|Option<\(usize', h.local_ty(0)):
+            continue
+        its = [x for x in iter_calls(h) if x[0] in ITER_ALLOWED]
+        if not its:
+            continue
+        good = True
+        for r_ in h.return_blocks():
+            rs = provenance(h, ['cp', [0, []]], r_, 'term', through=[r'Option::<.*>::map$', r'as std::ops::Try>::branch$'])
+            good &= bool(rs) and all((r.kind == 'call' and any(r.call.bb == x[1].bb for x in its)) or (r.kind == 'agg' and str(r.what).endswith('None')) for r in rs)
+        # closures handed to Option::map only project (no calls of their own)
+        for clo in fs.closures_of(h):
+            if any(c.is_(r'Option::<.*>::map') for c in h.calls()) and not any(x[1].args and clo.path in str(x[1].args) for x in its):
+                pass
+        if good:
+            out[h.path] = its
+    _HELPERS[key] = out
+    return out
+
 def index_sources(body, op, bb, idx):
     """classify the provenance of an index operand"""
     rs = provenance(body, op, bb, idx, through=None)
     kinds = set()
+    helpers = lookup_helpers(body.facts) if body.facts is not None else {}
     for r in rs:
         if r.kind == 'call' and r.call.is_(r'Iterator>?::(find|find_map|next)\b'):
             kinds.add('iter')
+        elif r.kind == 'call' and any(n in helpers for n in r.call.names):
+            kinds.add('iter')
         elif r.kind == 'bin' and r.extra['op'].startswith('Add') and (op_const(r.extra['b']) or {}).get('v') == 1:
             inner = provenance(body, r.extra['a'], r.site[0], r.site[1], through=None)
-            if inner and all(x.kind == 'call' and x.call.is_(r'Iterator>?::(find|find_map|next)\b') for x in inner):
+            if inner and all(x.kind == 'call' and (x.call.is_(r'Iterator>?::(find|find_map|next)\b') or any(n in helpers for n in x.call.names)) for x in inner):
                 kinds.add('iter+1')
             else:
                 kinds.add('arith')
@@ -242,6 +295,9 @@ def consumers(ctx, cfg, fs, rule):
     for nm, (path, kind) in CONSUMERS.items():
         b = ctx.look(fs.body(path))
         its = iter_calls(b)
+        for c_ in b.calls():
+            for n_ in c_.names:
+                its = its + lookup_helpers(fs).get(n_, [])
         meths = sorted({m for (m, c) in its})
         bad = [m for m in meths if m not in ITER_ALLOWED and m not in ('into_iter',)]
         kinds = {ITER_ALLOWED[m] for m in meths if m in ITER_ALLOWED}
